@@ -3,7 +3,7 @@
   python3-vt -m pyvc.selftest            engine self-test module T00 + every mutant of selftest/mutants.py
   python3-vt -m pyvc.selftest --only c13
 
-1. contracts/T00_engine.py: exactly its EXPECTED_REFUTED obligations must be refuted, everything else discharged.
+1. contracts/T00_engine.py (and every other contracts/Tnn_*.py): exactly its EXPECTED_REFUTED obligations must be refuted, everything else discharged.
 2. each mutant is applied to a scratch copy of /repo/src under $TMPDIR (outside /repo and /verif, removed
    afterwards); the check of its property must exit 1 and name the designated obligation in a VIOLATION
    report; the unmutated scratch copy must pass.
@@ -35,15 +35,34 @@ def main():
     args = ap.parse_args()
     failures = []
     # 1. engine self-test
-    if not args.only or args.only.lower() == 't00':
-        sys.path.insert(0, VERIF)
-        from contracts import T00_engine
-        rc, out = run_check('T00', jobs=args.jobs)
+    import glob as _glob, importlib
+    sys.path.insert(0, VERIF)
+    for f in sorted(_glob.glob(os.path.join(VERIF, 'contracts', 'T[0-9][0-9]_*.py'))):
+        # engine self-test modules: exactly their EXPECTED_REFUTED obligations are refuted, the rest discharged
+        tid = os.path.basename(f)[:3]
+        if args.only and args.only.lower() != tid.lower():
+            continue
+        mod = importlib.import_module('contracts.' + os.path.basename(f)[:-3])
+        rc, out = run_check(tid, jobs=args.jobs)
         got = set(re.findall(r'^  obligation: (.*)$', out, re.M))
-        if got != set(T00_engine.EXPECTED_REFUTED) or 'UNDECIDED' in out or 'CHECKER-ERROR' in out:
-            failures.append(('T00', 'expected refutations %r, got %r\n%s' % (sorted(T00_engine.EXPECTED_REFUTED),
-                                                                              sorted(got), out[-1500:])))
-        print('T00 engine self-test:', 'ok' if not failures else 'FAILED')
+        ok = not (got != set(mod.EXPECTED_REFUTED) or 'UNDECIDED' in out or 'CHECKER-ERROR' in out)
+        if not ok:
+            failures.append((tid, 'expected refutations %r, got %r\n%s' % (sorted(mod.EXPECTED_REFUTED),
+                                                                           sorted(got), out[-1500:])))
+        print('%s engine self-test:' % tid, 'ok' if ok else 'FAILED')
+    # 1a. every sidecar module must import under the repository's interpreter (no z3): replay scripts need them
+    if not args.only or args.only.lower() == 'imports':
+        code = ("import sys, glob, os, importlib, warnings; warnings.simplefilter('ignore'); sys.path.insert(0, %r)\n"
+                "bad = []\n"
+                "for f in sorted(glob.glob(os.path.join(%r, 'contracts', '[CT][0-9][0-9]*.py'))):\n"
+                "    try: importlib.import_module('contracts.' + os.path.basename(f)[:-3])\n"
+                "    except Exception as e: bad.append((f, repr(e)))\n"
+                "print(bad); sys.exit(1 if bad else 0)\n" % (VERIF, VERIF))
+        p = subprocess.run(['/venv/bin/python', '-W', 'ignore', '-c', code], capture_output=True, text=True,
+                           env=dict(os.environ, PYTHONPATH=os.path.join(REPO, 'src')))
+        print('sidecar modules import without z3 (replay side):', 'ok' if p.returncode == 0 else 'FAILED')
+        if p.returncode != 0:
+            failures.append(('imports', (p.stdout + p.stderr)[-1500:]))
     # 1b. models and interpreter against CPython
     if not args.only:
         p = subprocess.run([sys.executable, '-m', 'pyvc.modelcheck', '3'], cwd=VERIF, capture_output=True, text=True)
@@ -84,6 +103,34 @@ def main():
                 print('%-40s %s' % (mid, 'caught by ' + hit[0] if ok else 'MISSED (exit %d)' % rc))
                 if not ok:
                     failures.append((mid, out[-1500:]))
+        finally:
+            shutil.rmtree(tmp, ignore_errors=True)
+    # 3. changes under which the property still holds: no alarm
+    benign = [b for b in getattr(mutants, 'BENIGN', []) if not args.only or args.only.lower() in b[0].lower()
+              or args.only.upper() == b[1]]
+    if benign:
+        tmp = tempfile.mkdtemp(prefix='pyvc-selftest-')
+        try:
+            shutil.copytree(os.path.join(REPO, 'src'), os.path.join(tmp, 'src'))
+            for (bid, prop, rel, edits) in benign:
+                path = os.path.join(tmp, 'src', rel)
+                orig = open(path).read()
+                text = orig
+                missing = [old for old, new in edits if old not in text]
+                if missing:
+                    failures.append((bid, 'edit site not found in %s (the code has changed: update the entry)' % rel))
+                    print('%-40s SITE-NOT-FOUND' % bid)
+                    continue
+                for old, new in edits:
+                    text = text.replace(old, new, 1)
+                open(path, 'w').write(text)
+                try:
+                    rc, out = run_check(prop, repo=tmp, jobs=args.jobs)
+                finally:
+                    open(path, 'w').write(orig)
+                print('%-40s %s' % (bid, 'no alarm' if rc == 0 else 'ALARM (exit %d)' % rc))
+                if rc != 0:
+                    failures.append((bid, out[-1500:]))
         finally:
             shutil.rmtree(tmp, ignore_errors=True)
     for mid, why in failures:
